@@ -45,7 +45,7 @@ impl KkState {
 }
 
 /// a mutating operation on the key-keeper actor (one per call of a mutating wrapper method)
-pub enum Mut { RuleId(Endpoint, Seq<char>), Rules(Endpoint), SetKey, ClearKey, State(Seq<char>) }
+pub enum Mut { RuleId(Endpoint, Seq<char>), Rules(Endpoint), Key(Option<Key>), State(Seq<char>) }
 
 /// the key-keeper actor as this iteration sees it
 pub tracked struct Actor {
